@@ -5,5 +5,5 @@ CONSTANTS
   Slice = 0
   NSlices = 1
   Deep = FALSE
-  Streams <- MCStreams
+  Streams <- NoStreams
 CHECK_DEADLOCK FALSE
